@@ -485,6 +485,20 @@ def Opts.processErrorCodes (o : Opts) : Opts :=
 def globalOptions (defaults : Opts) (iniGlobal : Changes) (cli : List CliArg) : Opts :=
   Opts.processErrorCodes { defaults with get := applyCli (setAll defaults.get iniGlobal) cli }
 
+/-- `strict` inside one source.  Config file: `parse_section` calls `set_strict_flags()` the moment it meets
+    `strict = True` — the strict assignments land on the options object at once — while the other keys of
+    the `[mypy]` section are collected in `results` and assigned only after the section has been read; so an
+    explicit key for a strict flag wins whether it stands before or after `strict`.  Command line:
+    `--strict` is noticed in the dummy parse and `set_strict_flags()` runs before the real argparse pass, so
+    every explicit flag wins, again in either order — and `--strict` runs after the config file, so it
+    overwrites the config file's explicit keys. -/
+def globalOptionsStrict (defaults : Opts) (strictAssign : Changes) (iniStrict : Bool) (iniGlobal : Changes)
+    (cliStrict : Bool) (cli : List CliArg) : Opts :=
+  let g0 := if iniStrict then setAll defaults.get strictAssign else defaults.get
+  let g1 := setAll g0 iniGlobal
+  let g2 := if cliStrict then setAll g1 strictAssign else g1
+  Opts.processErrorCodes { defaults with get := applyCli g2 cli }
+
 /-- `strict = True` in a config file: `parse_section` calls `set_strict_flags()`, the closure that
     `process_options` built over the *global* `Options` object — whichever section the key stands in.
     `sectionHasStrict`: one entry per section of the file (`[mypy]` first), true when it says `strict = True`. -/
